@@ -48,6 +48,9 @@ THEOREMS = [
     "PP.Parse.lookahead_consumes_nothing", "PP.Parse.notany_iff", "PP.Parse.opt_spec", "PP.Parse.zeroOrMore_spec",
     "PP.Parse.group_nests", "PP.Parse.suppress_omits", "PP.Parse.combine_joins", "PP.Parse.skipWhite_stops",
     "PP.Parse.skipWhite_skips_only_white", "PP.Parse.preParse_is_skipWhite", "PP.Parse.skip_then_match",
+    # the closed theorem for the plain fragment (Props/C01Sem.lean over the declarative reading Props/C01SemDef.lean)
+    "PP.Parse.plain_parse_sound", "PP.Parse.sem_deterministic", "PP.Parse.plain_parse_iff_sem", "PP.Parse.plain_parse_stable",
+    "PP.Parse.plain_parse_ok_excludes_fail", "PP.Parse.plainTable_iff",
 ]
 
 # default whitespace, no actions, no ignorables, no '-', no classes whose reading the reference does not implement
@@ -162,7 +165,7 @@ def run_ref(ctx, stream, jobs):
 
 def run(ctx):
     common.import_pyparsing()
-    ctx.proof_leg("PPProofs.Props.C01", THEOREMS)
+    ctx.proof_leg("PPProofs.Props.C01", THEOREMS, extra_modules=("PPProofs.Props.C01Sem",))
     ctx.rule.append("(1) exhaustive small scope: all grammars of <=3 nodes (thorough: + 4-node slice) over 8 leaves, 8 unary and "
                     "3 binary combinators x all strings of length <= L over {a,b,blank} (quick L=4, thorough L=6); (2) random "
                     "deep grammars with sharing (harness/gen.py, default whitespace, no actions) x inputs sampled from the "
@@ -174,7 +177,8 @@ def run(ctx):
     thorough = ctx.tier == "thorough"
     sp = small_programs(thorough)
     si = small_inputs(6 if thorough else 4)
-    jobs_small = [dict(prog=p, root=r, inputs=si, entries=[("parse", ()), ("scan", (100, True, False))], modes=[("none",)])
+    jobs_small = [dict(prog=p, root=r, inputs=si, entries=[("parse", ()), ("scan", (100, True, False))], modes=[("none",)],
+                       want_plain=True)
                   for p, r in sp]
     corr_parse.run_jobs(ctx, "model-vs-real:small-scope", jobs_small)
     run_ref(ctx, "reference:small-scope", [dict(prog=j["prog"], root=j["root"], inputs=si) for j in jobs_small])
@@ -184,7 +188,7 @@ def run(ctx):
         rng = random.Random(f"C01-{ctx.seed}-deep-{i}")
         prog, root, inputs = gen.gen_case(rng, gen.Cfg(**PEG_CFG), 6)
         jobs.append(dict(prog=prog, root=root, inputs=inputs, entries=[("parse", ()), ("parseAll", ()), ("scan", (100, True, False))],
-                         modes=[("none",)]))
+                         modes=[("none",)], want_plain=True))
     corr_parse.run_jobs(ctx, "model-vs-real:deep", jobs)
     mult = 4 if (ctx.broken and not ctx.fail_inputs) else 1
     # ---- Forwards taking a non-skipping body's flag ---------------------------------------------------------
